@@ -112,34 +112,47 @@ theorem copy_content {h : Heap γ} (s : Sep h) (r : Nat) (bs : List (Body γ)) (
   rw [this, e, absRun_target_irrel h.objs.length r]
   rfl
 
-theorem norm_of_mdNormal [DecidableEq γ] (c : Content γ) (hn : c.mdNormal = true) : c.norm = c := by
-  simp only [Content.mdNormal, Bool.and_eq_true, beq_iff_eq] at hn
+theorem norm_of_mdNormal (c : Content γ) (hn : c.mdNormal = true) : c.norm = c := by
+  rw [mdNormal_iff] at hn
   simp [Content.norm, hn.1, hn.2]
 
-/-- **in-place ≡ non-in-place** (guard: the receiver has no metadata tuple made only of empty
-entries — see `inplace_equiv_witness`): "the in-place variant leaves the receiver in exactly the
-state the non-in-place variant returns", for every body (filter, transform, norm, pa, rankdata,
-remove_empty, update_ids, add/del metadata and any sequence of them), every content function. -/
-theorem inplace_equiv_partial [DecidableEq γ] {h : Heap γ} (s : Sep h) (r : Nat) (bs : List (Body γ)) (o : Obj)
-    (ho : h.objs[r]? = some o) (hn : (h.absObj o).mdNormal = true) :
-    (stepOp h (.inplace r bs)).abs r = (stepOp h (Op.copyThen r bs)).abs h.objs.length := by
-  rw [inplace_content s r bs o ho, copy_content s r bs o ho, norm_of_mdNormal _ hn]
+/-- the invariant of every reachable heap: separation of the writable locations, and no table
+holding a metadata tuple without information (constructor, `_cast_metadata`, `filter` and
+`del_metadata` all turn such a tuple into `None`) -/
+def Inv (h : Heap γ) : Prop := Sep h ∧ Normal h
 
+theorem inv_empty : Inv (Heap.empty : Heap γ) := ⟨sep_empty, normal_empty⟩
+
+theorem stepOp_inv {h : Heap γ} (i : Inv h) (op : Op γ) : Inv (stepOp h op) :=
+  ⟨stepOp_sep i.1 op, run_normal i.1 i.2 _⟩
+
+theorem runOps_inv {h : Heap γ} (i : Inv h) (ops : List (Op γ)) : Inv (runOps h ops) := by
+  induction ops generalizing h with
+  | nil => exact i
+  | cons m r ih => exact ih (stepOp_inv i m)
+
+/-- **in-place ≡ non-in-place**: "the in-place variant leaves the receiver in exactly the state the
+non-in-place variant returns" — for every reachable heap (any layout of the receiver, any sharing
+of its ID arrays, any history), every body (filter, transform, norm, pa, rankdata, remove_empty,
+update_ids, add/del metadata and any sequence of them) and every content function. -/
+theorem inplace_equiv {h : Heap γ} (i : Inv h) (r : Nat) (bs : List (Body γ)) (o : Obj)
+    (ho : h.objs[r]? = some o) :
+    (stepOp h (.inplace r bs)).abs r = (stepOp h (Op.copyThen r bs)).abs h.objs.length := by
+  rw [inplace_content i.1 r bs o ho, copy_content i.1 r bs o ho, norm_of_mdNormal _ (i.2 r o ho)]
 
 /-- a 1×2 table whose second sample has an empty metadata entry -/
 def wC0 : Content Nat :=
   { obs := ["o"], samp := ["s1", "s2"], mat := 7, omd := none, smd := some [[("a", "1")], []], ttype := none }
 
-/-- build it, then keep only the second sample in place: the receiver now holds the tuple `({},)` -/
+/-- build it, then keep only the second sample in place: the kept entry is empty, so the receiver
+now has no sample metadata (before the repair of `filter` it kept the tuple `({},)`, and the
+in-place and copying variants of every later operation disagreed) -/
 def wHeap : Heap Nat :=
   runOps Heap.empty [.new [] [] (fun _ => wC0) .fresh .fresh [], .inplace 0 [.filter .samp id ["s2"] [false, true]]]
 
-/-- the guard of `inplace_equiv_partial` is needed: on a receiver whose sample metadata is the
-tuple `({},)`, `transform(inplace=True)` keeps the tuple while `transform(inplace=False)` returns a
-table whose sample metadata is `None` (`copy()` goes through the constructor's normalisation). -/
-theorem inplace_equiv_witness :
-    (wHeap.abs 0).map Content.mdNormal = some false ∧
-    (stepOp wHeap (.inplace 0 [.transform .samp (· * 2)])).abs 0 ≠
+theorem inplace_equiv_formerly_failing :
+    (wHeap.abs 0).map (·.smd) = some none ∧
+    (stepOp wHeap (.inplace 0 [.transform .samp (· * 2)])).abs 0 =
       (stepOp wHeap (Op.copyThen 0 [.transform .samp (· * 2)])).abs wHeap.objs.length := by
   decide
 
@@ -195,10 +208,11 @@ theorem stepOp_ids_length_le (h : Heap γ) (op : Op γ) : h.ids.length ≤ (step
   unfold stepOp
   rw [he]; simp
 
-/-- one in-place call (guard: see `inplace_equiv_witness`) -/
-theorem obs_holds_inplace {h : Heap γ} (s : Sep h) (r : Nat) (bs poke : List (Body γ)) (o : Obj)
-    (ho : h.objs[r]? = some o) (hn : (h.absObj o).mdNormal = true) :
+/-- one in-place call -/
+theorem obs_holds_inplace {h : Heap γ} (i : Inv h) (r : Nat) (bs poke : List (Body γ)) (o : Obj)
+    (ho : h.objs[r]? = some o) :
     holds (obsOp h (.inplace r bs) poke).1 = true := by
+  have s := i.1
   have hr := getElem?_some_lt ho
   have hle := stepOp_objs_length_le h (.inplace r bs)
   have hc := inplace_content s r bs o ho
@@ -217,7 +231,7 @@ theorem obs_holds_inplace {h : Heap γ} (s : Sep h) (r : Nat) (bs poke : List (B
   · simp only [obsOp, Bool.false_or, beq_iff_eq]
     rw [List.getElem?_take, if_pos hr, snaps_get, hc]; rfl
   · simp only [obsOp, Bool.false_or, Bool.and_eq_true, beq_iff_eq]
-    rw [← inplace_equiv_partial s r bs o ho hn, hc]
+    rw [← inplace_equiv i r bs o ho, hc]
     exact ⟨rfl, rfl⟩
 
 /-- one call that returns new tables, followed by ANY in-place poke of the result -/
@@ -262,17 +276,16 @@ theorem obs_holds_new {h : Heap γ} (s : Sep h) (op : Op γ) (poke : List (Body 
     · simp only [obsOp, beq_iff_eq]; exact e2
     · simp only [obsOp, beq_iff_eq]; exact i2
 
-theorem obsOp_sep {h : Heap γ} (s : Sep h) (op : Op γ) (poke : List (Body γ)) : Sep (obsOp h op poke).2 := by
+theorem obsOp_inv {h : Heap γ} (s : Inv h) (op : Op γ) (poke : List (Body γ)) : Inv (obsOp h op poke).2 := by
   cases op with
-  | inplace r bs => exact stepOp_sep s _
-  | extIds l => exact stepOp_sep (stepOp_sep s _) _
-  | new pre srcs F os ss post => exact stepOp_sep (stepOp_sep s _) _
+  | inplace r bs => exact stepOp_inv s _
+  | extIds l => exact stepOp_inv (stepOp_inv s _) _
+  | new pre srcs F os ss post => exact stepOp_inv (stepOp_inv s _) _
 
-/-- **model_holds** (partial: guard `okRun` = at every in-place call the receiver exists and has no
-all-empty metadata tuple; the guard is exact, see `inplace_equiv_witness`): the declarative
-predicate is true of the model's observation of every call of every history from every separated
-heap, whatever the operations, their arguments, content functions and pokes. -/
-theorem model_holds_partial {h : Heap γ} (s : Sep h) (calls : List (Op γ × List (Body γ)))
+/-- **model_holds**: the declarative predicate is true of the model's observation of every call of
+every history from every heap satisfying the invariant, whatever the operations, their arguments,
+content functions and pokes (`okRun`: every in-place call names a table that is live). -/
+theorem model_holds {h : Heap γ} (i : Inv h) (calls : List (Op γ × List (Body γ)))
     (hok : okRun h calls = true) : (runObs h calls).all holds = true := by
   induction calls generalizing h with
   | nil => rfl
@@ -280,26 +293,61 @@ theorem model_holds_partial {h : Heap γ} (s : Sep h) (calls : List (Op γ × Li
     obtain ⟨op, poke⟩ := c
     simp only [okRun, Bool.and_eq_true] at hok
     simp only [runObs, List.all_cons, Bool.and_eq_true]
-    refine ⟨?_, ih (obsOp_sep s op poke) hok.2⟩
+    refine ⟨?_, ih (obsOp_inv i op poke) hok.2⟩
     cases op with
     | inplace r bs =>
       have hk := hok.1
-      simp only [okCall] at hk
-      cases ha : h.abs r with
-      | none => simp [ha] at hk
-      | some c =>
-        obtain ⟨o, ho, e⟩ := abs_some_obj ha
-        simp only [ha] at hk
-        exact obs_holds_inplace s r bs poke o ho (e ▸ hk)
-    | extIds l => exact obs_holds_new s _ poke (fun _ _ e => by cases e)
-    | new pre srcs F os ss post => exact obs_holds_new s _ poke (fun _ _ e => by cases e)
+      simp only [okCall, decide_eq_true_eq] at hk
+      exact obs_holds_inplace i r bs poke h.objs[r] (by simp [hk])
+    | extIds l => exact obs_holds_new i.1 _ poke (fun _ _ e => by cases e)
+    | new pre srcs F os ss post => exact obs_holds_new i.1 _ poke (fun _ _ e => by cases e)
 
 /-- every history that starts from nothing (all prior histories, every layout they lead to) -/
 theorem model_holds_from_empty (pre : List (Op γ)) (calls : List (Op γ × List (Body γ)))
     (hok : okRun (runOps Heap.empty pre) calls = true) :
     (runObs (runOps (Heap.empty : Heap γ) pre) calls).all holds = true :=
-  model_holds_partial (runOps_sep sep_empty pre) calls hok
+  model_holds (runOps_inv inv_empty pre) calls hok
 
 end holds
+
+/-! ### non-vacuity: concrete heaps with shared ID arrays, layouts that match / do not match -/
+
+def exA : Content Nat :=
+  { obs := ["o1", "o2"], samp := ["s1", "s2"], mat := 1, omd := some [[("g", "a")], [("g", "b")]], smd := none,
+    ttype := some "OTU table" }
+def exB : Content Nat := { exA with mat := 2, omd := none }
+def exT (cs : List (Content Nat)) : Content Nat :=
+  match cs with
+  | [c] => { obs := c.samp, samp := c.obs, mat := c.mat + 100, omd := c.smd, smd := c.omd, ttype := none }
+  | _ => exA
+
+/-- the caller makes one ID array and builds two tables on it; the first is transposed (views of
+both of its ID arrays); the second is put into CSC layout by an in-place transform -/
+def exHeap : Heap Nat :=
+  runOps Heap.empty [.extIds ["s1", "s2"], .new [] [] (fun _ => exA) .fresh (.ofLoc 0) [],
+    .new [] [] (fun _ => exB) .fresh (.ofLoc 0) [], Op.transpose 0 exT,
+    .inplace 1 [.transform .samp (· + 5)]]
+
+example : Inv exHeap := runOps_inv inv_empty _
+/-- tables 0 and 1 share the caller's array; the transposed table 2 uses table 0's arrays, swapped -/
+example : exHeap.objs.map (fun o => (o.obsIds, o.sampIds)) = [(1, 0), (2, 0), (0, 1)] := by decide
+example : exHeap.objs.map (·.fmt) = [.csr, .csc, .csr] := by decide
+/-- an in-place transform on table 0 (layout matches: the buffer is written in place) changes table 0
+and neither table 1, which shares its sample IDs, nor table 2, which shares both ID arrays -/
+example :
+    let h' := stepOp exHeap (.inplace 0 [.transform .obs (· + 10), .updateIds .samp ["x", "y"]])
+    h'.abs 0 ≠ exHeap.abs 0 ∧ h'.abs 1 = exHeap.abs 1 ∧ h'.abs 2 = exHeap.abs 2 ∧
+    (h'.objs.map (·.mat)) = (exHeap.objs.map (·.mat)) := by decide
+/-- the hypothesis of `model_holds` is met by a history with in-place and non-in-place calls,
+a layout that matches (table 1, CSC, sample axis) and one that does not, and pokes -/
+example : okRun exHeap
+    [(.inplace 1 [.filter .samp (· + 1) ["s2"] [false, true]], []),
+     (Op.copyThen 0 [.transform .samp (· * 2)], [.transform .obs (· * 3), .addMd .obs [some (fun m => ("k", "v") :: m)],
+                                                   .delMd .obs (some (fun m => m.filter (·.1 != "k")))]),
+     (Op.partition 0 .samp [(0, .samp)] (fun _ => exB) [], [.updateIds .obs ["p", "q"]]),
+     (.inplace 0 [.updateIds .obs ["n1", "n2"]], [])] = true := by decide
+example : (runObs exHeap
+    [(.inplace 1 [.filter .samp (· + 1) ["s2"] [false, true]], []),
+     (Op.copyThen 0 [.transform .samp (· * 2)], [.transform .obs (· * 3)])]).map (·.results.length) = [1, 1] := by decide
 
 end Biom.C07
